@@ -194,10 +194,13 @@ def run_scenario(case, observer=None):
                 continue
             if kindname in ("Sensor", "IntelligentSwitch"):
                 # a device of the automatic control fails (state FAILED, as a failure draw would set it); `rep` is its manual
-                # repair time.  Not part of the switching model: such scenarios are oracle-only (state["devfail"]).
-                state["devfail"] = True
+                # repair time.  The model follows with `ctl dstep` (what each device will answer is read per increment).
+                state["devtrouble"] = True
                 if l.state.name == "OK":
-                    l.manual_repair_time = Time(F(rep))
+                    hard = str(rep).startswith("h")        # a sensor whose new signal and reboot both fail: manual repair, false alarm meanwhile
+                    l.manual_repair_time = Time(F(str(rep).lstrip("h")))
+                    if hard and kindname == "Sensor":
+                        l.ps_random = net.SeqRng([0, 0])
                     l.fail()
                 continue
             if name.startswith(("IL", "IN")):       # communication line / node: not part of the switching model, no model op
@@ -254,10 +257,25 @@ def run_scenario(case, observer=None):
             sw = fr(F(ps.controller.sectioning_time.get_hours()))
         if automatic_now():
             rs, ri = comm_bits()
-            op = f"ctl astep {fr(dt.get_hours())} {rs} {ri}" if sw is None else f"ctl sastep {sw} {fr(dt.get_hours())} {rs} {ri}"
+            # devices in trouble right now (read before the loop polls them): a FAILED sensor answers after its new-signal time
+            # (the scenarios' generator never lets the retry fail), a sensor under repair reports "failed", a FAILED intelligent
+            # switch costs the manual sectioning time at its first poll
+            def hard(sn):
+                return isinstance(sn.ps_random, net.SeqRng) and sn.ps_random.values[:2] == [0, 0]
+            se = [(F(l.sensor.new_signal_time.get_hours()) + (F(l.sensor.reboot_time.get_hours()) if hard(l.sensor) else 0))
+                  if (l.sensor is not None and l.sensor.state.name == "FAILED") else F(0) for l in v.lines]
+            sr = "".join("1" if (l.sensor is not None and (l.sensor.state.name == "REPAIR" or (l.sensor.state.name == "FAILED" and hard(l.sensor)))) else "0" for l in v.lines)
+            sf = "".join("1" if (d.intelligent_switch is not None and d.intelligent_switch.state.name == "FAILED") else "0" for d in v.discons)
+            prev = state.get("sens_prev", {})
+            rk = "".join("1" if any(l.sensor is not None and prev.get(l.sensor.name) == "REPAIR" and l.sensor.state.name == "OK" for l in n.lines) else "0" for n in v.nets)
+            if any(se) or "1" in sr or "1" in sf or "1" in rk:
+                op = f"ctl dstep {fr(dt.get_hours())} {rs} {ri} {flist(se)} {sr or '-'} {sf or '-'} {sw if sw is not None else '-'} {rk or '-'}"
+            else:
+                op = f"ctl astep {fr(dt.get_hours())} {rs} {ri}" if sw is None else f"ctl sastep {sw} {fr(dt.get_hours())} {rs} {ri}"
         else:
             op = f"ctl step {fr(dt.get_hours())}" if sw is None else f"ctl sstep {sw} {fr(dt.get_hours())}"
         orig_loop(curr_time=curr_time, dt=dt)
+        state["sens_prev"] = {l.sensor.name: l.sensor.state.name for l in v.lines if l.sensor is not None}
         ops.append(op)
         impl.append(show(v.snapshot()))
         rec = {"k": state["k"], "phase": "step", "inv": v.invariants(), "normal": v.is_normal(),
@@ -285,6 +303,7 @@ def run_scenario(case, observer=None):
     times = [dt * k * 3600 / c17.FACT[unit] for k in range(1, n_inc + 1)]       # the same instants, written in the reporting unit
     with c17._Exact():
         sim.run_sequence(TimeStamp(), times, c17.U(unit), cb, case.get("save_flag", False))
+    v.devtrouble = bool(state.get("devtrouble"))       # sensors / intelligent switches failed by themselves in this run
     if state["devfail"]:
         ops, impl = [], []          # sensors / intelligent switches failed by themselves: outside the loop model, oracle only
     return v, ops, impl, info
